@@ -116,6 +116,24 @@ def check_class(prog, rep, modname, cname):
                     and isinstance(g.target, ast.Tuple) and len(g.target.elts) == 2 and norm(v.slice.args[0].elt) == norm(g.target.elts[0]):
                 gen = ast.GeneratorExp(elt=g.target.elts[1], generators=[ast.comprehension(target=g.target.elts[1], iter=g.iter.args[0], ifs=g.ifs, is_async=0)])
                 return gen, False
+            # next(i for i in range(len(self.X)) if <cond over self.X[i]>)
+            if isinstance(g.iter, ast.Call) and norm(g.iter.func) == "range" and len(g.iter.args) == 1 and norm(g.iter.args[0]) == f"len({norm(v.value)})" \
+                    and isinstance(g.target, ast.Name) and norm(v.slice.args[0].elt) == g.target.id:
+                i_, base = g.target.id, norm(v.value)
+                elem = ast.Name(id="_item", ctx=ast.Load())
+
+                class R(ast.NodeTransformer):
+                    def visit_Subscript(self, n):
+                        if norm(n) == f"{base}[{i_}]":
+                            return elem
+                        self.generic_visit(n)
+                        return n
+
+                import copy as _copy
+                ifs = [R().visit(_copy.deepcopy(c)) for c in g.ifs]
+                if not any(isinstance(x, ast.Name) and x.id == i_ for c in ifs for x in ast.walk(c)):
+                    gen = ast.GeneratorExp(elt=elem, generators=[ast.comprehension(target=ast.Name(id="_item", ctx=ast.Store()), iter=v.value, ifs=ifs, is_async=0)])
+                    return gen, False
         if isinstance(v, ast.Call) and norm(v.func) == "next" and v.args and isinstance(v.args[0], (ast.GeneratorExp, ast.ListComp)):
             if len(v.args) == 1 and not v.keywords:
                 return v.args[0], False
